@@ -182,6 +182,8 @@ pub fn install_quiet_panic_hook() {
             s.clone()
         } else if info.payload().downcast_ref::<crate::timer::TimerBudget>().is_some() {
             "<<timer budget>>".to_string()
+        } else if info.payload().downcast_ref::<crate::timer::TimerFault>().is_some() {
+            "<<injected timer fault>>".to_string()
         } else {
             "<non-string panic payload>".to_string()
         };
